@@ -99,3 +99,29 @@ func VH_RT_New() {
 		vx.Assert(vx.BytesStr(byKey.Recv) == vx.JsonOfString(v), "C19:plain-string-kept-as-logical-name")
 	}
 }
+
+// VH_RT_New2: two configured tag sources are independent: each routes on its own key, the first that
+// matches wins, and the built-in source stays behind them.
+func VH_RT_New2() {
+	k1, k2 := vx.String("key1"), vx.String("key2")
+	vx.Assume(vx.And(k1 != k2, k1 != "resonate:invoke", k2 != "resonate:invoke"))
+	d1, _ := json.Marshal(&TagSourceConfig{Key: k1})
+	d2, _ := json.Marshal(&TagSourceConfig{Key: k2})
+	r, err := New(nil, metrics.New(prometheus.NewRegistry()), &Config{Size: 1, Workers: 1, Sources: []SourceConfig{{Name: "a", Type: "tag", Data: d1}, {Name: "b", Type: "tag", Data: d2}}})
+	vx.Assert(err == nil && r != nil, "C19:router-constructs")
+	v1, v2 := vx.String("value1"), vx.String("value2")
+	vx.Assume(vx.And(!vx.JsonValid(v1), !vx.JsonValid(v2)))
+	route := func(tags map[string]string) *t_aio.RouterCompletion {
+		p := &promise.Promise{Id: "p", State: promise.Pending, Tags: tags}
+		cqes := r.Process([]*bus.SQE[t_aio.Submission, t_aio.Completion]{{Id: "r", Submission: &t_aio.Submission{Kind: t_aio.Router, Tags: map[string]string{},
+			Router: &t_aio.RouterSubmission{Promise: p}}, Callback: func(*t_aio.Completion, error) {}}})
+		return cqes[0].Completion.Router
+	}
+	a := route(map[string]string{k1: v1})
+	vx.Assert(a.Matched && vx.BytesStr(a.Recv) == vx.JsonOfString(v1), "C19:each-configured-source-routes-on-its-own-key")
+	b := route(map[string]string{k2: v2})
+	vx.Assert(b.Matched && vx.BytesStr(b.Recv) == vx.JsonOfString(v2), "C19:each-configured-source-routes-on-its-own-key")
+	both := route(map[string]string{k1: v1, k2: v2})
+	vx.Assert(both.Matched && vx.BytesStr(both.Recv) == vx.JsonOfString(v1), "C19:first-configured-source-that-matches-wins")
+	vx.Reach("done")
+}
